@@ -315,7 +315,7 @@ def workload(res):
     thorough = res.tier == "thorough"
     seed = res.seed
     rng = core.rng_for(seed, "c02")
-    progs = tw.corpus_programs(seed, 1500 if thorough else 120) + tw.generated_programs(seed, 12000 if thorough else 1200)
+    progs = tw.corpus_programs(seed, 1500 if thorough else 200) + tw.generated_programs(seed, 12000 if thorough else 4000)
     items = []
     budget_small = 10 ** 9 if thorough else 60
     for tag, text in progs:
@@ -327,7 +327,7 @@ def workload(res):
                 new, applied = layout.compose(text, rng)
                 if new is not None:
                     items.append(("layout:%s:%s" % ("+".join(applied), tag), new, (200 if thorough else 30) if big else budget_small, seed))
-    items += [("pep695:%d" % i, "", budget_small, seed) for i in range(seed * 100000, seed * 100000 + (3000 if thorough else 300))]
+    items += [("pep695:%d" % i, "", budget_small, seed) for i in range(seed * 100000, seed * 100000 + (3000 if thorough else 800))]
     return items
 
 
